@@ -2,7 +2,7 @@
 import json
 
 from common import circ_from_json, circ_to_json
-from props.histgen import gen_history, ALL_OPS, PRIMITIVE_OPS
+from props.histgen import gen_history, ALL_OPS, PRIMITIVE_OPS, directed_reconvert
 from props.mutcommon import compare_mutate, py_mutate, check_wf
 from props.evalcommon import py_exec
 
@@ -94,6 +94,8 @@ def search(ctx):
             start, steps = directed_blocks(rng, start) or (start, steps)
         if k % 10 == 2:
             start, steps = directed_order(rng, start) or (start, steps)
+        if k % 10 == 6:
+            start, steps = directed_reconvert(rng, start) or (start, steps)
         res = py_mutate({'c': start, 'steps': steps})['ok']
         good = [x for x in res if 'err' not in x]
         ctx.case(json.dumps(['s', start['gates'], steps]), len(good) >= 3)
